@@ -419,9 +419,9 @@ def gen_overlapping(rng, tier, kinds, margin_prob=0.0, stream=None):
     """(s1, s2, meta): a pair that overlaps (as far as the harness' own float oracle can tell).
     streams: depth (B placed along a direction so that the extent of the overlap along it is
     delta*L), lattice (exact coincidences), deep (random poses with nearby centres), nested, small
-    (feature sizes 1e-2 .. 5e-2)"""
+    (feature sizes 1e-2 .. 5e-2), aligned (equally oriented boxes, scaled copies of one shape)"""
     for _ in range(200):
-        stream_ = stream or rng.choice(["depth", "depth", "depth", "lattice", "lattice", "deep", "nested", "small"])
+        stream_ = stream or rng.choice(["depth", "depth", "depth", "lattice", "lattice", "deep", "nested", "small", "aligned", "aligned"])
         k1, k2 = rng.choice(kinds), rng.choice(kinds)
         meta = dict(stream=stream_, kinds=[k1, k2])
         if stream_ == "depth":
@@ -446,6 +446,27 @@ def gen_overlapping(rng, tier, kinds, margin_prob=0.0, stream=None):
             if rng.random() < 0.7:
                 off = [rng.choice([-1.0, -0.5, -0.25, 0.0, 0.0, 0.25, 0.5, 1.0]) for _ in range(3)]
                 s2 = nw.translate_spec(s2, (nw.center_of(s1) - nw.center_of(s2)) + np.array(off))
+        elif stream_ == "aligned":
+            # equally oriented boxes with generic sizes / a shape against a scaled copy of itself: many exactly
+            # parallel faces of A - B, exactly equal support values in several directions
+            if rng.random() < 0.6 or not (set(kinds) & {"hull", "mesh"}):
+                R = np.eye(3) if rng.random() < 0.5 else nw.rand_rotation(rng, rng.choice(["lattice", "random"]))
+                sz1 = [round(rng.uniform(0.4, 2.0), 2) for _ in range(3)]
+                sz2 = [round(rng.uniform(0.4, 2.0), 2) for _ in range(3)]
+                c1 = [rng.uniform(-1, 1) for _ in range(3)] if rng.random() < 0.5 else [0.0, 0.0, 0.0]
+                off = np.array([round(rng.uniform(-0.45, 0.45) * (a + b), 2) for a, b in zip(sz1, sz2)])
+                s1 = dict(kind="box", pose=nw.pose_of(R, c1), size=sz1)
+                s2 = dict(kind="box", pose=nw.pose_of(R, (np.array(c1) + R @ off).tolist()), size=sz2)
+                k1 = k2 = "box"
+            else:
+                k1 = k2 = rng.choice([k for k in kinds if k in ("hull", "mesh")])
+                s1 = nw.gen_collider(rng, k1, "moderate", spread=1.0, margin_prob=0.0)
+                sc = rng.choice([0.5, 1.0, 1.0, 1.5, 2.0])
+                c1 = nw.center_of(s1)
+                s2 = nw.transform_spec(nw.translate_spec(s1, -c1), np.eye(3), np.zeros(3), scale=sc)
+                off = np.array([rng.uniform(-1, 1) for _ in range(3)]) * 0.3 * nw.feature_size(s1) * rng.choice([0.0, 0.3, 1.0])
+                s2 = nw.translate_spec(s2, c1 + off)
+            meta["kinds"] = [k1, k2]
         elif stream_ == "small":
             # feature sizes of a few 1e-2 (lower end of the declared domain): tiny polytope faces
             sz = [0.01, 0.0125, 0.02, 0.025, 0.04, 0.05]
